@@ -71,6 +71,10 @@ CHECKS = {
             "schema-driven Hypothesis generation over all registered PDUs and constructed types (all presence patterns / choice alternatives forced), round-trip + re-encode laws, differential against an independent schema interpreter over an audited golden schema, and published Annex F vectors",
             "For each of the 58 registered service PDUs and ~230 Sequence/Choice classes a recursive strategy built from the class's own element tables generates values (every presence pattern of optionals for classes with few optionals, every choice alternative, lists 0..3, Any filled with typed atomic and constructed values nested up to three opening tags deep); each value must encode, decode to a structurally equal value consuming every tag (PDUs refuse trailing data), re-encode identically and equal the octets of an independent interpreter of golden/schema.json over the reference tag/primitive encoder; live tables and registries must not drift from the golden schema; 17 Annex F examples must encode to the published octets and decode to the published parameters.",
             "golden/schema.json is a snapshot of the pinned tables with audited corrections (listed inside the file); for un-audited base types it is a regression oracle. Two open known findings (list-typed choice alternatives; NotificationParametersExtended) are excluded by construction when nested."),
+    "C15": ("exploration",
+            "model-based ReadProperty / WriteProperty / ReadPropertyMultiple histories (Hypothesis, schema-driven values) between a real client stack and a real device for every registered object type; oracle = dict model + reference encoder",
+            "For each of the ~60 registered standard object types an instance is configured through the public API (generated initial values of the declared datatypes, generated writable subset), then generated histories of reads with all index classes, valid writes by construction, refused writes by construction (unknown object/property, wrong datatype, read-only, index beyond the array) and ReadPropertyMultiple with explicit references and the all/required/optional selectors run over the virtual LAN; acked writes must read back (structurally and, for the value octets, against the reference encoder), refused writes must answer the matching error and leave a full snapshot unchanged, array index rules must hold and every RPM element must equal what ReadProperty returns.",
+            "Objects with special write semantics (commandable, device-object computed properties, local schedule) are excluded here; absent properties are 'unknown' to the library by design, so writes target present properties; a single element is a legitimate one-element list."),
 }
 
 NOT_YET = {}
